@@ -10,7 +10,7 @@ from hypothesis import strategies as st
 from parso import cache as pcache
 from parso.file_io import FileIO
 
-from ..common import crash_signature, digest, first_tree_diff, grammar, short
+from ..common import scratch_dir, crash_signature, digest, first_tree_diff, grammar, short
 from ..engine import Outcome, Prop
 
 FILES = ['a.py', 'b.py', 'sub/a.py']
@@ -41,7 +41,7 @@ _op = st.one_of(
 
 class World:
     def __init__(self):
-        self.root = tempfile.mkdtemp(prefix='vf-c16-')
+        self.root = scratch_dir('vf-c16-')
         self.dirs = [os.path.join(self.root, d) for d in DIRS]
         self.files = [os.path.join(self.root, f) for f in FILES]
         os.mkdir(os.path.join(self.root, 'sub'))
